@@ -161,12 +161,21 @@ def run(ck):
         forms.append("module M\n" + "".join("interface I%d%s { op%d() }\n" % (i, (" : " + ", ".join("I%d" % b for (a, b) in es if a == i)) if any(a == i for a, _ in es) else "", i) for i in range(3)))
         forms.append("module M\n" + "".join("struct T%d { %s }\n" % (i, ", ".join("f%d: %s" % (k, ("T%d?" if (a + b + k) % 3 == 0 else ("Sequence<T%d>" if (a + b + k) % 3 == 1 else "T%d")) % b) for k, (a, b) in enumerate(es) if a == i)) for i in range(3))
                      + "struct U { d: Dictionary<int32, T0>, e: T1, f: T2 }\n")
+        # the same graphs over compact structs that are used as dictionary keys (key checks walk the fields of a key type), the user before and after them
+        body = "".join("compact struct K%d { n: int32%s }\n" % (i, "".join(", f%d: K%d" % (k, b) for k, (a, b) in enumerate(es) if a == i)) for i in range(3))
+        user = "struct U%d { d: Dictionary<K%d, bool>, e: K%d }\n" % (mask % 3, mask % 3, (mask // 3) % 3)
+        forms.append("module M\n" + (user + body if mask % 2 else body + user))
     # every kind of doc comment content on every kind of element that can carry one (tags that do not fit the element included)
     bodies = ["/// text {@link S}", "/// @param x: see {@link S} and {@link Nope}", "/// @returns: a {@link M::S}", "/// @returns x: {@link S}", "/// @see S\n/// @see Nope", "/// @throws Nope: when {@link S}",
               "/// {@link S", "/// {@link }", "/// {@link S} {@link S} {@link S}", "/// @param", "/// @param x", "/// @foo {@link S}", "/// @param x: a\n///   {@link S}\n/// @returns: b\n///   {@link S}",
-              "/// {@param x}", "/// @see", "/// @\n/// {@}", "///\n///\n/// @param p: {@link p}"]
+              "/// {@param x}", "/// @see", "/// @\n/// {@}", "///\n///\n/// @param p: {@link p}",
+              # comments that start right after the slashes, with nothing, with non-ASCII text, with wide white space
+              "///", "///été", "///\u3000text", "///\n///", "///é\n///\té", "///😀 {@link S}", "//// four slashes\n///x"]
     hosts = ["%sstruct S2 {}", "struct S2 {\n%sa: int32 }", "%sinterface I {}", "interface I {\n%sop(p: int32) -> int32 }", "interface I {\n%sop(p: int32) -> (a: int32, b: int32) }", "interface I {\n%sop() }",
-             "%senum E { A }", "enum E {\n%sA }", "enum E {\n%sA(x: int32) }", "enum E { A(\n%sx: int32) }", "%scustom C", "%stypealias T = int32", "%sunchecked enum E2 : uint8 {}"]
+             "%senum E { A }", "enum E {\n%sA }", "enum E {\n%sA(x: int32) }", "enum E { A(\n%sx: int32) }", "%scustom C", "%stypealias T = int32", "%sunchecked enum E2 : uint8 {}",
+             # places where a doc comment is not allowed (what is said about it quotes the comment)
+             "interface I { op(\n%sp: int32) }", "interface I { op(p: int32,\n%sq: bool) -> bool }", "interface I { op() -> (\n%sa: int32, b: bool) }", "interface I { op() -> (a: int32,\n%sb: bool) }",
+             "%smodule Late", "struct S3 { a:\n%sint32 }", "interface I { op() ->\n%sbool }"]
     for b in bodies:
         for h in hosts:
             forms.append("module M\nstruct S {}\n" + h % (b + "\n") + "\n")
@@ -190,13 +199,30 @@ def run(ck):
     # every form once more with CRLF line ends (diagnostics are also rendered with their snippets by the harness)
     forms += [t.replace("\n", "\r\n") for t in forms if len(t) < 400 and "\r" not in t]
     o3 = core.run_impl("diags", ["diags - " + hx(t) for t in forms], chunk=200, timeout=120)
-    ck.stream("forms", description="all forms with LF and with CRLF line ends, diagnostics rendered with snippets; directives cut short at the end of their line; long non-ASCII tokens in unexpected places; every Unicode white-space character (and zero-width look-alikes, NUL) at every gap of every preprocessor directive and of ordinary source; every inheritance and containment graph over three definitions; 17 doc comment bodies (links in overviews and in every tag, tags that do not fit, unterminated and empty links) on 13 kinds of element; every type form (primitive, optional, sequence, dictionary, result, struct/enum/interface/custom/alias names, global, unknown, module name, nested, attributed, malformed) in every type position "
+    ck.stream("forms", description="all forms with LF and with CRLF line ends, diagnostics rendered with snippets; directives cut short at the end of their line; long non-ASCII tokens in unexpected places; every Unicode white-space character (and zero-width look-alikes, NUL) at every gap of every preprocessor directive and of ordinary source; every inheritance and containment graph over three definitions (containment also over compact structs used as dictionary keys); 24 doc comment bodies (links in overviews and in every tag, tags that do not fit, unterminated and empty links, comments that start right after the slashes with nothing, non-ASCII text or wide white space) on 20 kinds of element and places where none is allowed (parameters, return members, modules, types); every type form (primitive, optional, sequence, dictionary, result, struct/enum/interface/custom/alias names, global, unknown, module name, nested, attributed, malformed) in every type position "
               "(field, base, second base, underlying type, alias target, dictionary key/value, parameter, return tuple, enumerator field, tagged, compact, streamed, element, link); containment/alias/inheritance cycles; "
               "every program of three aliases over {name, sequence, dictionary, result} x {A, B, C, int32} (4096, exhaustive); malformed and boundary integer literals in every literal position; mixed-width and CRLF doc comments; deep nesting (300), long lists (3000), long chains (300-400), unterminated constructs")
     for t, oo in zip(forms, o3):
         ck.count("forms", t)
         if classify(oo) == "CRASH":
             ck.violation("forms", "crash", t[:600], "diagnostics", oo[:300], signature={"head": t[:40]})
+    # ---------------------------------------------------------------- 3b. several files: names that keywords spell, written with a backslash, next to the keywords' ordinary use
+    KW = ["bool", "int8", "uint8", "int16", "uint16", "int32", "uint32", "varint32", "varuint32", "int64", "uint64", "varint62", "varuint62", "float32", "float64", "string",
+          "module", "struct", "enum", "interface", "custom", "typealias", "Sequence", "Dictionary", "Result", "compact", "unchecked", "idempotent", "stream", "tag", "AnyClass"]
+    multi = []
+    for kw in KW:
+        user = "module M\nstruct S { a: %s, b: Sequence<%s?>, c: Dictionary<string, int32> }\ninterface I { op(p: %s) -> bool }\n" % ((kw,) * 3) if kw in KW[:16] else "module M\nstruct S { a: int32, s: string }\n"
+        for named in ("module \\%s\n" % kw, "module \\%s::Inner\ncustom C\n" % kw, "module Outer::\\%s\nstruct \\%s { \\%s: bool }\n" % ((kw,) * 3),
+                      "module X\nstruct \\%s {}\nstruct U { a: \\%s }\n" % (kw, kw), "module X\ntypealias \\%s = bool\nenum E { \\%s }\n" % (kw, kw)):
+            multi += [[named, user], [user, named], [named, user, named.replace("Inner", "Other")]]
+    o3b = core.run_impl("diags", ["diags - " + " ".join(hx(t) for t in ts) for ts in multi], chunk=100, timeout=120)
+    ck.stream("several-files", description="two and three files in every order: a module, a nested module, a definition, a field, an alias or an enumerator named by a keyword written with a backslash "
+              "(every primitive type's keyword and 15 others), next to a file that uses the keyword in the ordinary way")
+    for ts, oo in zip(multi, o3b):
+        case = "\n-- next file --\n".join(ts)
+        ck.count("several-files", case)
+        if classify(oo) == "CRASH":
+            ck.violation("several-files", "crash", case[:600], "diagnostics", oo[:300], signature={"head": ts[0][:24].split("\n")[0].rstrip("0123456789")})
     # ---------------------------------------------------------------- 4. time: growth on dense dependency graphs
     # Quick tier: the time for n definitions is measured at three sizes below 2 KiB; doubling times per added pair of definitions
     # (growth by more than 8x over +4 definitions while the input grows by a quarter) is exponential growth and breaks the bound
